@@ -162,7 +162,7 @@ routes: dict[str, Route] = {
         handler='generic.NotFound',
         title="BaseURL for on-demand media"),
     "dash-od-media": Route(
-        r'/dash/odvod/<stream>/<regex("[\w-]+"):filename>.<regex("(mp4|m4v|m4a|m4s)"):ext>',
+        r'/dash/odvod/<stream>/<regex("[\w.-]+"):filename>.<regex("(mp4|m4v|m4a|m4s)"):ext>',
         handler='media_requests.OnDemandMedia',
         title="DASH media file"),
     "index-media-file": Route(
